@@ -27,6 +27,7 @@ CONSTANTS
   KnownDefects = {%(defects)s}
   Log <- %(log)s
   Depth = %(depth)d
+  SetupAddrs = {%(setup)s}
 %(rest)s
 CHECK_DEADLOCK FALSE
 """
@@ -63,7 +64,7 @@ def write(sd, name, text):
 
 def acc_cfg(sd, name, **kw):
     d = dict(spec="Spec", addr=q("A", "B"), code=q("c1"), skey=q("k1"), sval=q("v1"), changes="ChMixed", defects="",
-             log="LogLast", depth=4, rest="")
+             log="LogLast", depth=4, rest="", setup=q("A"))
     d.update(kw)
     return write(sd, name, ACC_CFG % d)
 
@@ -196,6 +197,9 @@ def run_accounts(ctx):
         r1 = [("r1-storage.cfg", dict(addr=q("A"), code="", skey=q("k1"), sval=q("v1"), changes="ChSto",
                                       depth=7 if qk else 9)),
               ("r1-mixed.cfg", dict(depth=3 if qk else 4)),
+              # start from a committed state with an empty data tries holder (a "new block")
+              ("r1-committed-start.cfg", dict(spec="SetupSpec", addr=q("A", "B"), code="", skey=q("k1"), sval=q("v1", "v2"),
+                                              changes="ChSto", depth=5 if qk else 7)),
               ("r1-two-keys.cfg", dict(addr=q("A", "B") if qk else q("A", "B", "C"), code="", skey=q("k1", "k2"),
                                        sval=q("v1", "v2"), changes="ChSto2", depth=3))]
     else:
@@ -237,7 +241,11 @@ def run_accounts(ctx):
     if c06:
         gens = [("gen-storage.cfg", dict(spec="GenCoreSpec", addr=q("A"), code="", skey=q("k1"), sval=q("v1"),
                                          changes="ChSto", depth=7)),
-                ("gen-mixed.cfg", dict(spec="GenSpec", depth=4))]
+                ("gen-mixed.cfg", dict(spec="GenSpec", depth=4)),
+                # committed start: removal / saves of an account whose data trie is not in the holder, snapshots > 0
+                # provided by the other account
+                ("gen-committed-start.cfg", dict(spec="GenSetupSpec", addr=q("A", "B"), code="", skey=q("k1"),
+                                                 sval=q("v1", "v2"), changes="ChSto", depth=5 if qk else 6))]
         if not qk:
             gens.append(("gen-storage-2.cfg", dict(spec="GenCoreSpec", addr=q("A", "B"), code="", skey=q("k1"), sval=q("v1"),
                                                    changes="ChSto", depth=5)))
@@ -260,7 +268,8 @@ def run_accounts(ctx):
         first = first or out
 
     # ---- R2b: sampled random walks of a larger configuration (3 accounts, 2 codes, 2 keys, all change kinds)
-    acc_cfg(sd, "sim.cfg", spec="SimSpec", addr=q("A", "B", "C"), code=q("c1", "c2"), skey=q("k1", "k2"),
+    # (the walks start from a committed state in which A and B have storage and no data trie is loaded)
+    acc_cfg(sd, "sim.cfg", spec="SimSetupSpec", setup=q("A", "B"), addr=q("A", "B", "C"), code=q("c1", "c2"), skey=q("k1", "k2"),
             sval=q("v1", "v2"), changes="ChAll", log="LogAppend", depth=16, rest="ACTION_CONSTRAINT EmitFull")
     sim = ctx.path("sim.ndjson")
     ctx.tlc(sd, "MC_Accounts", "sim.cfg", simulate=150 if qk else 1500, depth=16, timeout=1500, behaviours_out=sim)
